@@ -304,11 +304,13 @@ func init() {
 	m["internal/bytealg.CountString"] = func(in *Interp, fr *Frame, args []Value, call *ssa.CallCommon) Value {
 		s := args[0].(Str)
 		c := args[1].(*Term)
-		cnt := mkBV(64, 0)
+		cnt := 0 // concrete per path: callers size slices with it
 		for i := 0; i < s.Len(); i++ {
-			cnt = tBin(OpAdd, cnt, tBoolToBV(tEq(s.At(i), c), 64))
+			if in.branch(tEq(s.At(i), c)) {
+				cnt++
+			}
 		}
-		return cnt
+		return mkBV(64, uint64(cnt))
 	}
 	m["internal/bytealg.Equal"] = func(in *Interp, fr *Frame, args []Value, call *ssa.CallCommon) Value {
 		return in.strEq(in.bytesToStr(args[0].(Slice)), in.bytesToStr(args[1].(Slice)))
